@@ -1321,3 +1321,97 @@ def f64_to_bits(ex, args, callee):
 @stub('f64::from_bits')
 def f64_from_bits(ex, args, callee):
     return Float(args[0].t)
+
+
+# ----------------------------------------------------------------------------------
+# integer helper methods (core::num)
+# ----------------------------------------------------------------------------------
+
+def _int_method(callee):
+    """'core::num::<impl u64>::checked_mul' -> ('u64', 'checked_mul')"""
+    m = re.search(r'<impl ([a-z0-9]+)>::([a-z_0-9]+)', callee) or re.search(r'^([a-z0-9]+)::([a-z_0-9]+)$', strip_generics(callee))
+    if not m:
+        raise Unsupported('integer method ' + callee)
+    return m.group(1), m.group(2)
+
+
+def _ovf(ex, op, a, b):
+    from .executor import Frame
+    fr = Frame.__new__(Frame)
+    fr.ex = ex
+    r = Frame.binop(fr, op, a, b)
+    return r.fields[0], r.fields[1]
+
+
+def int_method(ex, args, callee):
+    ty, meth = _int_method(callee)
+    a = args[0]
+    b = args[1] if len(args) > 1 else None
+    base = {'add': 'AddWithOverflow', 'sub': 'SubWithOverflow', 'mul': 'MulWithOverflow'}
+    kind, _, op = meth.partition('_')
+    if kind == 'checked' and op in base:
+        v, o = _ovf(ex, base[op], a, b)
+        return NONE if ex.choose_bool(o.t) else some(v)
+    if kind == 'wrapping' and op in base:
+        v, o = _ovf(ex, base[op], a, b)
+        return v
+    if kind == 'overflowing' and op in base:
+        v, o = _ovf(ex, base[op], a, b)
+        return Agg('tuple', '', None, (v, o))
+    if kind == 'saturating' and op in base:
+        v, o = _ovf(ex, base[op], a, b)
+        bits, signed = INT_TYPES[a.ty]
+        if signed:
+            raise Unsupported('signed saturating arithmetic')
+        sat = z3.BitVecVal((1 << bits) - 1, bits) if op in ('add', 'mul') else z3.BitVecVal(0, bits)
+        return Int(z3.If(o.t, sat, v.t), a.ty)
+    if meth in ('min', 'max'):
+        lt = (a.t < b.t) if a.signed else z3.ULT(a.t, b.t)
+        return Int(z3.If(lt, a.t, b.t) if meth == 'min' else z3.If(lt, b.t, a.t), a.ty)
+    if meth == 'checked_div':
+        if ex.choose_bool(b.t == 0):
+            return NONE
+        return some(Int(z3.UDiv(a.t, b.t) if not a.signed else a.t / b.t, a.ty))
+    if meth == 'abs_diff':
+        lt = z3.ULT(a.t, b.t)
+        return Int(z3.If(lt, b.t - a.t, a.t - b.t), a.ty)
+    if meth == 'pow' or meth == 'leading_zeros' or meth == 'count_ones':
+        raise Unsupported('integer method ' + meth)
+    raise Unsupported('integer method %s::%s' % (ty, meth))
+
+
+for _t in ('u8', 'u16', 'u32', 'u64', 'u128', 'usize', 'i8', 'i16', 'i32', 'i64', 'i128', 'isize'):
+    for _m in ('checked_add', 'checked_sub', 'checked_mul', 'checked_div', 'wrapping_add', 'wrapping_sub', 'wrapping_mul',
+               'saturating_add', 'saturating_sub', 'saturating_mul', 'overflowing_add', 'overflowing_sub', 'overflowing_mul',
+               'min', 'max', 'abs_diff'):
+        REG['%s::%s' % (_t, _m)] = int_method
+        REG['num::%s' % _m] = int_method
+
+
+@stub('<u64 as TryFrom>::try_from', '<u32 as TryFrom>::try_from', '<usize as TryFrom>::try_from', '<i64 as TryFrom>::try_from',
+      '<u16 as TryFrom>::try_from', '<u8 as TryFrom>::try_from', '<i32 as TryFrom>::try_from',
+      '<u128 as TryInto>::try_into', '<u64 as TryInto>::try_into', '<usize as TryInto>::try_into', '<i64 as TryInto>::try_into',
+      '<u32 as TryInto>::try_into', '<i128 as TryInto>::try_into')
+def int_try_from(ex, args, callee):
+    m = re.match(r'^<([a-z0-9]+) as (TryFrom|TryInto)<([a-z0-9]+)>>', callee.strip())
+    if not m:
+        raise Unsupported('try_from ' + callee)
+    a, kind, b = m.groups()
+    tgt = a if kind == 'TryFrom' else b
+    v = args[0]
+    tb, ts = INT_TYPES[tgt]
+    from .executor import _int_cast
+    cast = _int_cast(v, tgt)
+    back = _int_cast(cast, v.ty)
+    fits = back.t == v.t
+    if v.signed != ts:
+        # sign must be non-negative on both sides
+        fits = z3.And(fits, z3.Extract(v.bits - 1, v.bits - 1, v.t) == 0, z3.Extract(tb - 1, tb - 1, cast.t) == 0)
+    if ex.choose_bool(fits):
+        return ok(cast)
+    return err(Agg('struct', 'TryFromIntError', None, ()))
+
+
+@stub('<Option as FromResidual>::from_residual')
+def option_from_residual(ex, args, callee):
+    return NONE
